@@ -163,6 +163,9 @@ def gen_case(rng, maxops, natural=None, f2=False, alloc=False):
                 marks = {o for o in sim.reg if o not in dropped}
                 marks = sim.close(marks)
                 # dropped objects MAY go: treat them as gone for the program (already untouchable)
+            if kind == 'managed' and not box and '+' not in tok and objs and rng.random() < .15:
+                # the same through copy(): alloc + assign of a live probe
+                tok = 'k%d,%d' % (nid, rng.choice(objs)) + (tok[tok.index(':'):] if ':' in tok else '')
             swept = sim.new(nid, kind, box, marks)
             ops.append(tok)
         elif r < .55:
@@ -440,7 +443,7 @@ def in_stop_window(case):
             stopped = True
         elif c == 'S':
             stopped = False
-        elif stopped and c in 'nbNBdDa':
+        elif stopped and c in 'nbNBdDak':
             return True
         elif stopped and c == 'x' and re.match(r'\d+', t[1:]).group(0) in rawbox:
             return True       # a raw Box issues `del` on what it owns
